@@ -21,6 +21,9 @@ SEEDS = {
  'C15a': ('C15', 'ShallowHistoryImpl::operator=: remembered states loaded from the source\'s initial states', 'copy of a machine whose history region was left in a non-initial state, followed by a history re-entry'),
  'C16a': ('C16', 'history policies: serialize no longer archives m_initialStates (the memory of AlwaysHistory)', 'AlwaysHistory submachine left in a non-initial state, saved, restored, re-entered'),
  'C17a': ('C17', 'back is_flag_active fold: wrong early break', '>= 3 regions where regions 0 and 1 agree and a later one differs'),
+ 'C18a': ('C18', 'back defer_event_kleene_helper: binds the functor argument ev (default-constructed type carrier) instead of any_cast<Event>(m_event)', 'Kleene row that defers (front::Defer) an event whose payload differs from a default-constructed one'),
+ 'C02b': ('C02', 'backmp11 state_visitor_impl active visit: loops interchanged (state list outer, regions inner)', 'exit of a multi-region machine while an earlier region is in a state with a larger id than a later region'),
+ 'C03b': ('C03', 'back start(): re-initialisation of m_states from the initial states removed ("the constructor did it")', 'stop() and start() again with a region off its initial state'),
  'C19a': ('C19', 'back g_row_: the after_action store was dropped', 'policy after_transition_action, guard-only row, observation from the target entry'),
  'C20a': ('C20', 'basic_polymorphic_base move assignment: control block replaced before destroy()', 'deque erase in the middle with a neighbour of another storage class / destructor'),
 }
